@@ -445,7 +445,17 @@ class GridFlow(WidgetWrap[Pile], WidgetContainerMixin, WidgetContainerListConten
         else:
             col_focus_position = 0
         # pad.first_position was set by generate_display_widget() above
-        self.focus_position = pile_focus.first_position + col_focus_position
+        position = pile_focus.first_position + col_focus_position
+        cell = c.contents[col_focus_position][0] if c.contents else None
+        if position < len(self.contents) and (cell is None or self.contents[position][0] is cell):
+            self.focus_position = position
+            return
+        # a cell's keypress() changed the contents after the display widget was built:
+        # follow the cell if it is still there, else leave the focus where the change put it
+        for i, (w, _options) in enumerate(self.contents):
+            if w is cell:
+                self.focus_position = i
+                return
 
     def keypress(
         self,
